@@ -82,6 +82,26 @@ Theorem C02_resolved_rpc_absolute : forall L svc mtd t t',
 Proof. exact resolve_rpc_absolute_lemma. Qed.
 Print Assumptions C02_resolved_rpc_absolute.
 
+(* what max means in the three kinds of range (parser/result.go getRangeBounds through asExtensionRanges /
+   asMessageReservedRange / asEnumReservedRange): a range written `s to max` ends at the limit handed in - in the
+   descriptor one beyond it for the half-open ranges of a message (2^29 for an ordinary message, 2^31-1 for a message
+   set), the limit itself, 2^31-1, for the closed reserved range of an enum - and nothing is reported when the start is
+   inside the limits.  Which limit a message hands to its ranges (field_max or msgset_max, the same one for extension
+   ranges, reserved ranges and field numbers) is in Model/Lower.v lower_elem and tied to the code by the differential
+   oracle (range stratum of checks/C02.py). *)
+Theorem C02_range_max : forall r, sr_max r = true ->
+  (forall mt, (1 <= sr_start r <= mt)%Z -> msg_range r mt = ((sr_start r, (mt + 1)%Z), [])) /\
+  ((int32_min <= sr_start r <= int32_max)%Z -> enum_range r = ((sr_start r, int32_max), [])).
+Proof. exact range_max_lemma. Qed.
+Print Assumptions C02_range_max.
+
+(* non-vacuity: reserved 2000 to max in a message set ends at 2147483647, in an ordinary message at 536870912 *)
+Example C02_range_max_nonvacuous :
+  msg_range (mkRange 2000 None true) msgset_max = ((2000, 2147483647), [])%Z /\
+  msg_range (mkRange 2000 None true) field_max = ((2000, 536870912), [])%Z /\
+  enum_range (mkRange 5 None true) = ((5, 2147483647), [])%Z.
+Proof. repeat split; vm_compute; reflexivity. Qed.
+
 (* non-vacuity: foo_bar -> fooBar / FooBarEntry, _x -> X / XEntry; with fields a, _a and X_a taken,
    the synthetic oneof of a is XX_a *)
 Example C02_nonvacuous :
